@@ -2,6 +2,7 @@ package c03
 
 import (
 	"fmt"
+	"regexp"
 	"sort"
 	"strings"
 	"testing"
@@ -38,8 +39,10 @@ func classes(g *jsgen.G) []string {
 	return out
 }
 
+var bangComment = regexp.MustCompile(`Stmt\(/\*![^*]*\*/\) ?`)
+
 func TestProp_Accept(t *testing.T) {
-	ev.Describe("accept", "programs derived from an ECMAScript grammar generator (all statement kinds, var/let/const/function/async/generator/class declarations with fields, methods, accessors, static blocks and private names, all binary/unary/update/assignment/conditional/coalesce/exponent operators, destructuring patterns with defaults and rest, templates with nested substitutions, optional chains, new with and without arguments, import()/import.meta/new.target, arrows in all head forms, labels, modules) x a drawn spelling (necessary and redundant parentheses, ; or automatic semicolon insertion by newline / before } / at the end, separators none/space/tab/comment/line terminators incl. U+2028 wherever the lexical grammar allows) x Options; oracle: Parse succeeds and AST.String() equals the fully parenthesised form computed bottom-up from the generator's own tree (while-loops as for-loops under WhileToFor), and the dense spelling of the same tree parses to the same String(); non-trivial = >= 3 operators of >= 2 kinds or >= 2 statement kinds")
+	ev.Describe("accept", "programs derived from an ECMAScript grammar generator (all statement kinds, var/let/const/function/async/generator/class declarations with fields, methods, accessors, static blocks and private names, all binary/unary/update/assignment/conditional/coalesce/exponent operators, destructuring patterns with defaults and rest, templates with nested substitutions, optional chains, new with and without arguments, import()/import.meta/new.target, arrows in all head forms, labels, modules) x a drawn spelling (necessary and redundant parentheses, ; or automatic semicolon insertion by newline / before } / at the end, separators none/space/tab/comment/line terminators incl. U+2028 wherever the lexical grammar allows) x Options; oracle: Parse succeeds and AST.String() equals the fully parenthesised form computed bottom-up from the generator's own tree (while-loops as for-loops under WhileToFor), the dense spelling of the same tree parses to the same String(), and so does a spelling whose comment separators are /*! */ comments once the Comment statements they leave in the tree are removed; non-trivial = >= 3 operators of >= 2 kinds or >= 2 statement kinds")
 	ev.Check(t, 5000, func(t *rapid.T) {
 		g, prog, o := genProgram(t)
 		src, asi := jsgen.Render(t, prog.Toks, false)
@@ -57,6 +60,18 @@ func TestProp_Accept(t *testing.T) {
 		}
 		if got := ast2.String(); got != prog.Str {
 			t.Fatalf("dense spelling (%+v):\n%s\nparses to\n  %s\nthe spaced spelling to\n  %s", o, dense, got, prog.Str)
+		}
+		// the same tokens with /*! */ comments as separators: they are kept as Comment statements, and are comments otherwise
+		bangSrc, _ := jsgen.RenderBang(t, prog.Toks)
+		if strings.Contains(bangSrc, "/*!") {
+			ast3, err := js.Parse(parse.NewInputString(bangSrc), o)
+			if err != nil {
+				t.Fatalf("spelling with /*! */ comments rejected (%+v):\n%s\nerror: %v\nexpected tree: %s", o, bangSrc, err, prog.Str)
+			}
+			if got := strings.TrimSpace(bangComment.ReplaceAllString(ast3.String(), "")); got != prog.Str {
+				t.Fatalf("spelling with /*! */ comments (%+v):\n%s\nparses (Comment statements removed) to\n  %s\nthe grammar dictates\n  %s", o, bangSrc, got, prog.Str)
+			}
+			ev.Count("accept", "bang-comment spelling", 1)
 		}
 		nops, nkinds := 0, 0
 		for _, n := range g.Ops {
@@ -216,12 +231,14 @@ func TestProp_RejectForbidden(t *testing.T) {
 }
 
 func TestProp_RejectRedeclare(t *testing.T) {
-	ev.Describe("reject-redeclare", "a generated program extended by a second lexical declaration of a name in the same scope: let a; let a / let a; const a=1 / class a{}; let a / let a; var a / const a=1; function a(){} / let a; class a{} at the top level or inside a block or function body; oracle: Parse returns an error and no tree under every Options value; the same two declarations with distinct names are accepted (control); non-trivial = every case")
+	ev.Describe("reject-redeclare", "a generated program extended by a second lexical declaration of a name in the same scope: let a; let a / let a; const a=1 / class a{}; let a / let a; var a / const a=1; function a(){} / let a; class a{} at the top level or inside a block, loop, switch, arrow or function body, also where the name is the own name of the enclosing function/class expression, a method name or a label; oracle: Parse returns an error and no tree under every Options value; the same two declarations with distinct names are accepted (control); non-trivial = every case")
 	ev.Check(t, 4000, func(t *rapid.T) {
 		_, prog, o := genProgram(t)
 		first := rapid.SampledFrom([]string{"let N", "const N=1", "class N{}", "let [N]=[]", "let {N}={}"}).Draw(t, "first")
 		second := rapid.SampledFrom([]string{"let N", "const N=2", "class N{}", "var N", "function N(){}", "let {q:N}={}"}).Draw(t, "second")
-		wrap := rapid.SampledFrom([]string{"%s;%s;", "{%s;%s;}", "function wrapper(){%s;%s;}", "if(x){%s;%s;}", "x=()=>{%s;%s;};", "for(;;){%s;%s;}", "switch(x){case 1:%s;default:%s;}"}).Draw(t, "wrap")
+		wrap := rapid.SampledFrom([]string{"%s;%s;", "{%s;%s;}", "function wrapper(){%s;%s;}", "if(x){%s;%s;}", "x=()=>{%s;%s;};", "for(;;){%s;%s;}", "switch(x){case 1:%s;default:%s;}",
+			// the duplicated name is also the function or class expression's own name (which a first declaration may shadow), or a label
+			"x=function dup(){%s;%s;};", "x=function*dup(){%s;%s;};", "x=async function dup(){%s;%s;};", "x=function dup(){{%s;%s;}};", "(class dup{m(){%s;%s;}});", "(class dup{static{%s;%s;}});", "dup:{%s;%s;}", "x={dup(){%s;%s;}};"}).Draw(t, "wrap")
 		rest, _ := jsgen.Render(t, prog.Toks, true)
 		bad := fmt.Sprintf(wrap, strings.ReplaceAll(first, "N", "dup"), strings.ReplaceAll(second, "N", "dup")) + rest
 		good := fmt.Sprintf(wrap, strings.ReplaceAll(first, "N", "dup"), strings.ReplaceAll(second, "N", "dup2")) + rest
